@@ -9,7 +9,7 @@ from engine import bind
 from .common import make_shell, tag
 from .coulomb import boys_stub
 
-MODULES = ["overlap", "kinetic", "momentum", "angmom", "moment", "point_charge", "eri", "eval", "eval_deriv"]
+MODULES = ["overlap", "overlap_screened", "kinetic", "momentum", "angmom", "moment", "point_charge", "eri", "eval", "eval_deriv"]
 
 
 def block_fn(M, module, other, extra):
@@ -30,6 +30,11 @@ def block_fn(M, module, other, extra):
     if module == "overlap":
         cls = m["gbasis.integrals.overlap"].Overlap
         return two(cls), raw_two(cls)
+    if module == "overlap_screened":
+        # with a screening tolerance: which blocks are dropped must not depend on how a shell is written
+        cls = m["gbasis.integrals.overlap"].Overlap
+        kw = dict(tol_screen=extra["tol"])
+        return two(cls, **kw), raw_two(cls, **kw)
     if module == "kinetic":
         cls = m["gbasis.integrals.kinetic_energy"].KineticEnergyIntegral
         return two(cls), raw_two(cls)
@@ -75,6 +80,8 @@ class ContractionAlgebra:
         out = []
         for mod in MODULES:
             ls = (0, 1) if tier == "quick" or mod in ("eri", "angmom") else (0, 1, 2)
+            if mod == "overlap_screened":
+                ls = (0,)
             for l in ls:
                 out.append(dict(module=mod, l=l, K=2, M=2))
             if tier == "thorough" and mod not in ("eri",):
@@ -95,7 +102,7 @@ class ContractionAlgebra:
         exps = M.vec("a", K, "pos")
         coeffs = M.vec("d", (K, Mn))
         other = make_shell(M, 1 if module != "eri" else 0, M.vec("B", 3), M.vec("od", (1, 1), "pos"), M.vec("ob", 1, "pos"))
-        extra = dict(C=M.vec("C", 3), pts=M.vec("R", (1, 3)), q=M.vec("q", 1))
+        extra = dict(C=M.vec("C", 3), pts=M.vec("R", (1, 3)), q=M.vec("q", 1), tol=M.scalar(M.pos("eps")))
         f, raw = block_fn(M, module, other, extra)
         gen = make_shell(M, l, A, coeffs, exps)
         ref = f(gen)
